@@ -1981,7 +1981,7 @@ default_source      { reject 554 5.7.0 }
 ``` -/
 def exSrc : Ast 0 :=
   [ .rules [dx] [.sub (.deliverTo (.target 0))],
-    .tbl (some [b_x]) [.sub (.deliverTo (.target 1))],
+    .tbl (some ⟨[b_x], 0⟩) [.sub (.deliverTo (.target 1))],
     .dflt [.sub (.reject (some ⟨554, 5, 7, 0⟩))] ]
 
 example : isOk (load lowerNorm 0 exSrc) = true := by decide
@@ -2116,6 +2116,89 @@ theorem C04_spec_handoff_origin {ρ} (N : Norm) (ssub : ρ → Str → Str → O
                     | modify ms => simp [specDeliver] at hd2
                     | reject r => simp [specDeliver] at hd2
                     | other => simp [specDeliver] at hd2
+
+/-! ## the lookup order is the declaration order, whatever the answering order
+
+Table modules answer after a latency (`Table.delay`, an input of every case: the harness' modules
+answer in the order the case scripts).  The selection reads the tables in declaration order and waits
+for each answer, so latencies change how long it takes and nothing else. -/
+
+theorem firstIn_cons {β} (t : Table) (b : β) (r : List (Table × β)) (k : Str) :
+    firstIn ((t, b) :: r) k = if t.contains k then some b else firstIn r k := by
+  unfold firstIn
+  cases h : t.contains k <;> simp [List.find?, h]
+
+/-- the sequential loop with latencies selects exactly what `firstIn` selects -/
+theorem firstInTimed_block {β} (l : List (Table × β)) (k : Str) :
+    (firstInTimed l k).1 = firstIn l k := by
+  induction l with
+  | nil => rfl
+  | cons p r ih =>
+    obtain ⟨t, b⟩ := p
+    rw [firstIn_cons]
+    unfold firstInTimed
+    cases h : t.contains k <;> simp [ih]
+
+theorem retime_contains (f : Table → Nat) (t : Table) (k : Str) :
+    ({ t with delay := f t } : Table).contains k = t.contains k := rfl
+
+theorem firstIn_retime {β} (f : Table → Nat) (l : List (Table × β)) (k : Str) :
+    firstIn (retime f l) k = firstIn l k := by
+  induction l with
+  | nil => rfl
+  | cons p r ih =>
+    obtain ⟨t, b⟩ := p
+    have hr : retime f ((t, b) :: r) = ({ t with delay := f t }, b) :: retime f r := rfl
+    rw [hr, firstIn_cons, firstIn_cons, retime_contains, ih]
+
+/-- **the lookup order is the declaration order whatever the answering order**: for all table lists,
+keys and latency assignments `f`, the block selected by `srcBlockForAddr` / `rcptBlockForAddr`
+(`selectBlock`) is the same, and so is the block the timed sequential loop returns. -/
+theorem C04_lookup_order_ignores_latency {β} (f : Table → Nat) (L : Level β) (k : Str) (nullOk : Bool) :
+    selectBlock { L with ins := retime f L.ins } k nullOk = selectBlock L k nullOk ∧
+    (firstInTimed (retime f L.ins) k).1 = firstIn L.ins k := by
+  constructor
+  · unfold selectBlock
+    simp only [firstIn_retime]
+  · rw [firstInTimed_block, firstIn_retime]
+
+/-- the first DECLARED matching table wins: the selected block belongs to a table that contains the
+key and no table declared before it does -/
+theorem C04_first_declared_table_wins {β} (l : List (Table × β)) (k : Str) (b : β)
+    (h : firstIn l k = some b) :
+    ∃ pre t post, l = pre ++ (t, b) :: post ∧ t.contains k = true ∧
+      ∀ p ∈ pre, p.1.contains k = false := by
+  induction l with
+  | nil => simp [firstIn] at h
+  | cons p r ih =>
+    obtain ⟨t, b'⟩ := p
+    rw [firstIn_cons] at h
+    cases hc : t.contains k with
+    | true =>
+      simp [hc] at h
+      subst h
+      exact ⟨[], t, r, rfl, hc, by simp⟩
+    | false =>
+      simp [hc] at h
+      obtain ⟨pre, t', post, hl, ht, hpre⟩ := ih h
+      refine ⟨(t, b') :: pre, t', post, by simp [hl], ht, ?_⟩
+      intro p hp
+      cases hp with
+      | head => exact hc
+      | tail _ hp => exact hpre p hp
+
+namespace Ex
+/-- two `destination_in` tables that both contain `b@x`; the later one answers first -/
+def slowFirst : List (Table × Nat) := [(⟨[b_x], 5⟩, 0), (⟨[b_x, a_x], 1⟩, 1)]
+/-- the code selects the first declared one (and has waited 5 units for it) -/
+example : firstInTimed slowFirst b_x = (some 0, 5) := by decide
+example : firstIn slowFirst b_x = some 0 := by decide
+/-- a "first answer wins" selection would take the other block: the theorem above is not a
+property of every way of consulting the tables -/
+example : firstAnswering slowFirst b_x = some (1, 1) := by decide
+/-- a key only the second table has: both lookups are waited for -/
+example : firstInTimed slowFirst a_x = (some 1, 6) := by decide
+end Ex
 
 /-! ## T1: facts regenerated from the current tree agree with what the model was written from
 
